@@ -164,6 +164,30 @@ theorem C04_roundtrip_equal (n : NodeID) (h : WF n) :
   obtain ⟨h3, h4⟩ := C04_canon_same n h
   exact ⟨t, canon n, h1, h2, h4, h3, ((C04_equal_iff (canon n) n h4 h).2).mpr h3⟩
 
+/-- CANONICAL FORM: the parser's result is a unique normal form — two well-formed
+    NodeIDs are the same node exactly when their text forms parse to the
+    identical value (same encoding byte, same fields), and parsing the text of
+    an already parsed id changes nothing -/
+theorem C04_canon_unique (a b : NodeID) (ha : WF a) (hb : WF b) :
+    (SameNode a b ↔ canon a = canon b) ∧ canon (canon a) = canon a := by
+  have key : ∀ x y : NodeID, WF x → WF y → SameNode x y → canon x = canon y := by
+    intro x y hx hy hs
+    obtain ⟨t, h1, h2⟩ := C04_parse_toString x hx
+    obtain ⟨u, h3, h4⟩ := C04_parse_toString y hy
+    have : toString x = toString y := ((C04_equal_iff x y hx hy).1).mpr hs
+    rw [h1, h3] at this
+    cases this
+    rw [h2] at h4
+    exact Option.some.inj h4
+  refine ⟨⟨key a b ha hb, ?_⟩, ?_⟩
+  · intro h
+    have h1 := (C04_canon_same a ha).1
+    have h2 := (C04_canon_same b hb).1
+    rw [h] at h1
+    exact SameNode.trans (SameNode.symm h1) h2
+  · obtain ⟨h1, h2⟩ := C04_canon_same a ha
+    exact key (canon a) a h2 ha h1
+
 /-! ### the former finding (C04.string-ns0-semicolon, fixed) as a regression -/
 
 /-- `NewStringNodeID(0, "a;b").String()` = `s=a;b` now parses to the String id
